@@ -179,9 +179,8 @@ func (e *SpecEnv) eval(x ast.Expr) Val {
 			d := &PtrDesc{InElem: true, Aid: base.L[0], Idx: app("bvadd", base.L[1], i64), ElemT: bt.Elem(), T: bt.Elem()}
 			return vc.loadDesc(e.st, d)
 		case *types.Array:
-			lay := layoutOf(bt.Elem())
 			v := Val{T: bt.Elem()}
-			for k := range lay.Leaves {
+			for k := range base.L {
 				v.L = append(v.L, sel(base.L[k], i64))
 			}
 			return v
@@ -442,6 +441,15 @@ func (e *SpecEnv) evalCall(x *ast.CallExpr) Val {
 	case "govcOffset":
 		a := e.eval(x.Args[0])
 		return Val{T: types.Typ[types.Int], L: []string{a.L[1]}}
+	case "govcRVNumField":
+		vc.declareRVFuncs()
+		return Val{T: types.Typ[types.Int], L: []string{app("RVNumField", e.eval(x.Args[0]).L[0])}}
+	case "govcRVClass", "govcRVWidth", "govcRVEClass", "govcRVEWidth", "govcRVTypeTag":
+		vc.declareRVFuncs()
+		return Val{T: types.Typ[types.Int], L: []string{app(strings.TrimPrefix(name, "govc"), e.eval(x.Args[0]).L[0], e.eval(x.Args[1]).L[0])}}
+	case "govcTypeTag":
+		tt := info.Types[typeArgs[0]].Type
+		return Val{T: types.Typ[types.Int], L: []string{bvLit(64, uint64(vc.w.tags.tag(tt)))}}
 	case "govcIsEOF":
 		v := e.eval(x.Args[0])
 		return Val{T: types.Typ[types.Bool], L: []string{vc.errIs(v, vc.externErrVar("io.EOF"))}}
